@@ -1,11 +1,16 @@
 import Proofs.ConfModel
+import Proofs.Polar
 
 /-! # C13 — rotor recovery in g3c: the algebraic core
 
-`rotor_between_objects(X1, X2)` is a normalisation `k` of `C = 1 + γ X2 X1` (γ = X1² = ±1).  The theorem below is the
-reason `R X1 ~R = ±X2`; PARTIAL: existence and choice of the root/normalisation (Dorst–Valkenburg square root, the
-special-position branches), `motor_between_rounds`, the roots, logarithm/exponential pairs and interpolation are decided
-by evaluation on the implementation over exactly representable objects in general and special position. -/
+`rotor_between_objects(X1, X2)` is a normalisation of `C = 1 + γ X2 X1` (γ = X1² = ±1) by the Dorst–Valkenburg polar
+decomposition: `σ = C ~C = s + q` (scalar plus a 4-vector with scalar square `t`), `n = ‖σ‖` (`n² = s² − t`), and the code
+multiplies by `k̄ = (s+n) − q` and normalises.  With the square roots as parameters constrained by their defining equations
+the theorems below give: `R ~R = 1` and `R X1 ~R = X2` in the positive-root branch; `R ~R = ε`, `R X1 ~R = ε X2` (`ε = ±1`)
+when `σ` is a scalar (the 'infinite roots' branch); `positive_root(σ)² = σ`; and `square_roots_of_rotor(R)² = R`.
+PARTIAL: that `σ` has the form `s + q` with `q²` scalar for the objects of g3c, the choice between the branches in floating
+point, `motor_between_rounds`, logarithm/exponential pairs and interpolation are decided by evaluation on the implementation
+over exactly representable objects in general and special position. -/
 
 namespace C13
 open Conf
@@ -29,5 +34,38 @@ theorem rotor_carries (X1 X2 k Rinv : A) (γ : ℚ) (hγ : γ * γ = 1) (h1 : X1
 /-- a translation motor fixes `einf` -/
 theorem translation_fixes_einf {x a ep en : A} {qx qa b : ℚ} (r : Rel2 x a ep en qx qa b) :
     transl a ep en * einf ep en * translRev a ep en = einf ep en := transl_fixes_einf r
+
+/-- **positive-root branch**: `R = κ k̄ C` is a unit versor carrying `X1` to `X2` -/
+theorem rotor_between_objects_positive_root (X1 X2 q : A) (γ s t n κ : ℚ) (hγ : γ * γ = 1) (h1 : X1 * X1 = γ • (1 : A))
+    (h2 : X2 * X2 = γ • (1 : A)) (hσ : (1 + γ • (X2 * X1)) * (1 + γ • (X1 * X2)) = s • (1 : A) + q) (hq : q * q = t • (1 : A))
+    (hn : n * n = s * s - t) (hκ : κ * κ * (2 * (s + n) * (n * n)) = 1) :
+    (κ • (((s + n) • (1 : A) - q) * (1 + γ • (X2 * X1)))) * (κ • ((1 + γ • (X1 * X2)) * ((s + n) • (1 : A) - q))) = 1
+    ∧ (κ • (((s + n) • (1 : A) - q) * (1 + γ • (X2 * X1)))) * X1 * (κ • ((1 + γ • (X1 * X2)) * ((s + n) • (1 : A) - q))) = X2 :=
+  Polar.polar_rotor_between X1 X2 q γ s t n κ hγ h1 h2 hσ hq hn hκ
+
+/-- **scalar `σ`** (`k = 1`, `R = C.normal()`; negative `σ` is the case of coplanar disjoint / nested opposite rounds):
+    `R ~R = ε`, `R X1 ~R = ε X2` with `ε = κ² s = ±1` -/
+theorem rotor_between_objects_scalar_sigma (X1 X2 : A) (γ s κ ε : ℚ) (hγ : γ * γ = 1) (h1 : X1 * X1 = γ • (1 : A))
+    (h2 : X2 * X2 = γ • (1 : A)) (hσ : (1 + γ • (X2 * X1)) * (1 + γ • (X1 * X2)) = s • (1 : A)) (hκ : κ * κ * s = ε) :
+    (κ • (1 + γ • (X2 * X1))) * (κ • (1 + γ • (X1 * X2))) = ε • (1 : A)
+    ∧ (κ • (1 + γ • (X2 * X1))) * X1 * (κ • (1 + γ • (X1 * X2))) = ε • X2 :=
+  Polar.scalar_sigma_rotor X1 X2 _ _ s κ ε hσ (Intertwine.rotor_between_intertwines X1 X2 γ hγ h1 h2) hκ
+
+/-- `positive_root(σ)² = σ` -/
+theorem positive_root_squares (q : A) (s t n dinv : ℚ) (hq : q * q = t • (1 : A)) (hn : n * n = s * s - t)
+    (hd : dinv * dinv * (2 * (s + n)) = 1) :
+    (dinv • ((s • (1 : A) + q) + n • (1 : A))) * (dinv • ((s • (1 : A) + q) + n • (1 : A))) = s • (1 : A) + q :=
+  Polar.positive_root_sq q s t n dinv hq hn hd
+
+/-- **`square_roots_of_rotor(R)[0]² = R`** for a unit rotor `R` -/
+theorem square_root_of_rotor (R Rrev q : A) (s t n κ : ℚ) (hR : R * Rrev = 1) (hR' : Rrev * R = 1)
+    (hσ : (1 + R) * (1 + Rrev) = s • (1 : A) + q) (hq : q * q = t • (1 : A))
+    (hn : n * n = s * s - t) (hκ : κ * κ * (2 * (s + n) * (n * n)) = 1) :
+    (κ • (((s + n) • (1 : A) - q) * (1 + R))) * (κ • (((s + n) • (1 : A) - q) * (1 + R))) = R :=
+  Polar.sqrt_rotor R Rrev q s t n κ hR hR' hσ hq hn hκ
+
+/-- non-vacuity: the constraints on the parameters are satisfiable with `t ≠ 0` (`s = 5/4`, `t = 9/16`, `n = 1`, `μ = 9/2`, `κ = √2/3`
+    is irrational, so the instance below uses `s = 17/8`, `t = 225/64`, `n = 1`: `μ = 2·(25/8)·1 = 25/4`, `κ = 2/5`) -/
+example : ((1 : ℚ) * 1 = (17/8) * (17/8) - 225/64) ∧ ((2/5 : ℚ) * (2/5) * (2 * (17/8 + 1) * (1 * 1)) = 1) := by norm_num
 
 end C13
